@@ -14,8 +14,10 @@ def main():
     t0 = time.time()
     res = {"spec": spec}
     try:
-        mir, info = get_mir()
-        P = Program(mir)
+        import os
+        repo = os.environ.get("MIRSYM_REPO", "/repo")   # development aid only; registered checks always use /repo
+        mir, info = get_mir(repo)
+        P = Program(mir, repo)
         env = Q.Env(P, spec.get("tier", "quick"))
         from mirsym import queries_sig as QS
         fn = getattr(Q, "q_" + spec["q"], None) or getattr(QS, "q_" + spec["q"], None)
